@@ -354,6 +354,15 @@ impl Script {
     /// Build from the abstract calls of a TLC behaviour (`calls` array of EmfReplay), returning
     /// the script and a JSON description of the concrete values chosen.
     pub fn from_abstract(calls: &[SV], conc: &Conc) -> (Script, SV) {
+        Self::from_abstract_prefilled(calls, conc, 0)
+    }
+
+    /// `prefill` > 0: directly behind the entry's `AllowSplitEntries` config the entry writes `prefill` filler metrics
+    /// with fresh names under fresh per-metric dimension sets (one record each). Dimension sets are independent in
+    /// EmfFormat.tla, so the model's verdict and records for the behaviour are unchanged and the fillers only shift the
+    /// behaviour's own dimension sets to record numbers `prefill`, `prefill + 1`, ... (C08-m7: state per record number).
+    pub fn from_abstract_prefilled(calls: &[SV], conc: &Conc, prefill: usize) -> (Script, SV) {
+        let mut filled = false;
         let mut out = Vec::new();
         let mut desc = Vec::new();
         for (pos, c) in calls.iter().enumerate() {
@@ -374,6 +383,19 @@ impl Script {
                         "unroutable" => Call::Unroutable,
                         k => Call::EntryDims(entry_dims(conc, k)),
                     });
+                    if arg == "split" && !std::mem::replace(&mut filled, true) {
+                        for i in 0..prefill {
+                            out.push(Call::Met {
+                                name: format!("zzfill{i}"),
+                                value: MetVal {
+                                    obs: vec![Observation::Unsigned(i as u64)],
+                                    unit: Unit::None,
+                                    dims: vec![("zzfilldim".to_string(), format!("zz{i}"))],
+                                    flag: Flag::None,
+                                },
+                            });
+                        }
+                    }
                 }
                 "STR" => {
                     let value = conc.string_value(arg, pos);
